@@ -483,3 +483,168 @@ Proof.
                 (S (length (wire items))) Hwf) as H.
   cbn [app length] in H. apply H. pose proof (wire_length_ge items Hwf). lia.
 Qed.
+
+(* ================= part D: the two programs of transport/tcp/connect.go ================= *)
+Definition wf_syn (o : synOpts) : Prop :=
+  1 <= sMSS o < 65536 /\ -1 <= sWS o <= 14 /\ is_u32 (sTSVal o) /\ is_u32 (sTSEcr o).
+(* what the receiver of a SYN (isAck = false) / SYN-ACK (isAck = true) must see *)
+Definition syn_expected (o : synOpts) (isAck : bool) : synOpts :=
+  mkSyn (sMSS o) (sWS o) (sTS o) (if sTS o then sTSVal o else 0)
+        (if sTS o && isAck then sTSEcr o else 0) (sSACKPermitted o).
+
+Ltac wf_items :=
+  repeat (apply Forall_cons; [cbn [wf_item]; first [exact I | lia | assumption | split; assumption]|]); apply Forall_nil.
+
+Theorem parse_recovers_syn_options o isAck buf :
+  wf_syn o -> length buf = maxOptionSize ->
+  exists bytes, make_options (syn_program o) buf = Some (bytes, 0) /\
+    Z.of_nat (length bytes) mod 4 = 0 /\ (length bytes <= 40)%nat /\
+    parseSynOptions bytes isAck = Ok (syn_expected o isAck).
+Proof.
+  intros (Hm & Hw & Hv & He) Hbuf. exists (wire (syn_program o)).
+  destruct o as [mss ws ts tsv tse sp]. cbn [sMSS sWS sTS sTSVal sTSEcr sSACKPermitted] in *.
+  unfold syn_program, syn_expected. cbn [sMSS sWS sTS sTSVal sTSEcr sSACKPermitted].
+  unfold maxOptionSize in Hbuf.
+  destruct ts, sp; cbn [andb app]; destruct (Z.leb_spec 0 ws) as [W|W]; cbn [app];
+    (split; [apply make_options_wire;
+             [wf_items
+             |rewrite Hbuf; cbn [wire map concat item_bytes app length be32]; lia
+             |cbn [wire map concat item_bytes app length be32]; reflexivity]|]);
+    (split; [cbn [wire map concat item_bytes app length be32]; reflexivity|]);
+    (split; [cbn [wire map concat item_bytes app length be32]; lia|]);
+    (rewrite parseSynOptions_items by wf_items);
+    cbn [fold_left apply_syn syn_default sMSS sWS sTS sTSVal sTSEcr sSACKPermitted];
+    try (assert (ws = -1) by lia; subst ws);
+    destruct isAck; reflexivity.
+Qed.
+
+Lemma emit_items_app a b st : emit_items (a ++ b) st = emit_items b (emit_items a st).
+Proof. unfold emit_items. apply fold_left_app. Qed.
+
+(* EncodeSACKBlocks respects the space left: it writes the first l blocks, l the largest
+   number <= min(len blocks, 4) with 2 + 8l <= len b *)
+Definition sack_fit (nblocks space : nat) : nat :=
+  Z.to_nat (Z.min (Z.min (Z.of_nat nblocks) 4) ((Z.of_nat space - 2) / 8)).
+
+Lemma encodeSACKBlocks_trunc blocks b :
+  blocks <> [] -> (10 <= length b)%nat ->
+  let l := sack_fit (length blocks) (length b) in
+  (1 <= l <= 4)%nat /\ (2 + 8 * l <= length b)%nat /\ length (firstn l blocks) = l /\
+  (length b < 2 + 8 * (l + 1) \/ l = 4 \/ l = length blocks)%nat /\
+  encodeSACKBlocks blocks b = encode_item (ISack (firstn l blocks)) b.
+Proof.
+  intros Hne Hb l. subst l. unfold sack_fit.
+  set (lz := Z.min (Z.min (Z.of_nat (length blocks)) 4) ((Z.of_nat (length b) - 2) / 8)).
+  assert (Hlen : (1 <= length blocks)%nat) by (destruct blocks; [congruence|cbn [length]; lia]).
+  assert (Hlz : 1 <= lz <= 4 /\ lz <= Z.of_nat (length blocks) /\ 2 + 8 * lz <= Z.of_nat (length b) /\
+                (Z.of_nat (length b) < 2 + 8 * (lz + 1) \/ lz = 4 \/ lz = Z.of_nat (length blocks))).
+  { subst lz. Z.div_mod_to_equations. lia. }
+  assert (Hfl : length (firstn (Z.to_nat lz) blocks) = Z.to_nat lz) by (rewrite firstn_length; lia).
+  split; [lia|]. split; [lia|]. split; [exact Hfl|]. split; [lia|].
+  cbn [encode_item]. unfold encodeSACKBlocks at 1.
+  destruct blocks as [|b0 bl']; [congruence|]. set (blocks := b0 :: bl') in *. cbv zeta.
+  rewrite Z.quot_div_nonneg by lia.
+  assert (E : (if (Z.of_nat (length b) - 2) / 8 <?
+                  (if 4 <? Z.of_nat (length blocks) then 4 else Z.of_nat (length blocks))
+               then (Z.of_nat (length b) - 2) / 8
+               else (if 4 <? Z.of_nat (length blocks) then 4 else Z.of_nat (length blocks))) = lz).
+  { subst lz. destruct (Z.ltb_spec 4 (Z.of_nat (length blocks)));
+      match goal with |- context [?a <? ?c] => destruct (Z.ltb_spec a c) end; lia. }
+  rewrite E. destruct (Z.eqb_spec lz 0) as [Z0|Z0]; [lia|].
+  (* right-hand side: the same encoder on the truncated list, which fits as it is *)
+  unfold encodeSACKBlocks.
+  destruct (firstn (Z.to_nat lz) blocks) as [|c0 cl] eqn:EF; [cbn [length] in Hfl; lia|].
+  cbv zeta. rewrite Hfl, Z.quot_div_nonneg by lia.
+  assert (E' : (if (Z.of_nat (length b) - 2) / 8 <?
+                  (if 4 <? Z.of_nat (Z.to_nat lz) then 4 else Z.of_nat (Z.to_nat lz))
+               then (Z.of_nat (length b) - 2) / 8
+               else (if 4 <? Z.of_nat (Z.to_nat lz) then 4 else Z.of_nat (Z.to_nat lz))) = lz).
+  { destruct (Z.ltb_spec 4 (Z.of_nat (Z.to_nat lz)));
+      match goal with |- context [?a <? ?c] => destruct (Z.ltb_spec a c) end;
+      try lia; Z.div_mod_to_equations; lia. }
+  rewrite E'. destruct (Z.eqb_spec lz 0) as [Z1|Z1]; [lia|].
+  rewrite <- EF. rewrite firstn_firstn, Nat.min_id. reflexivity.
+Qed.
+
+Definition wf_opt (tsVal tsEcr : Z) (blocks : list (Z * Z)) : Prop :=
+  is_u32 tsVal /\ is_u32 tsEcr /\ Forall u32pair blocks.
+
+(* makeOptions: with timestamps 3 SACK blocks fit after NOP NOP TS NOP NOP, without them 4 *)
+Theorem parse_recovers_options tsOk tsVal tsEcr sackPermitted blocks buf :
+  wf_opt tsVal tsEcr blocks -> length buf = maxOptionSize ->
+  exists bytes, make_options (opt_program tsOk tsVal tsEcr sackPermitted blocks) buf = Some (bytes, 0) /\
+    Z.of_nat (length bytes) mod 4 = 0 /\ (length bytes <= 40)%nat /\
+    parseTCPOptions bytes =
+      Ok (mkOpts tsOk (if tsOk then tsVal else 0) (if tsOk then tsEcr else 0)
+                 (if sackPermitted then firstn (if tsOk then 3 else 4) blocks else [])).
+Proof.
+  intros (Hv & He & Hbl) Hbuf. unfold maxOptionSize in Hbuf.
+  set (n := if tsOk then 3%nat else 4%nat).
+  (* the program is equivalent to the one with the SACK list already truncated *)
+  set (prog' := (if tsOk then [INop; INop; ITS tsVal tsEcr] else []) ++
+                (if sackPermitted && negb (Nat.eqb (length blocks) 0)
+                 then [INop; INop; ISack (firstn n blocks)] else [])).
+  assert (Hprog : make_options (opt_program tsOk tsVal tsEcr sackPermitted blocks) buf = make_options prog' buf).
+  { unfold make_options, opt_program, prog'.
+    destruct (sackPermitted && negb (Nat.eqb (length blocks) 0)) eqn:ES; [|reflexivity].
+    apply andb_true_iff in ES as [_ ES]. apply negb_true_iff, Nat.eqb_neq in ES.
+    assert (Hne : blocks <> []) by (intros ->; apply ES; reflexivity).
+    set (pre := (if tsOk then [INop; INop; ITS tsVal tsEcr] else []) ++ [INop; INop]).
+    change ((if tsOk then [INop; INop; ITS tsVal tsEcr] else []) ++ [INop; INop; ISack blocks])
+      with ((if tsOk then [INop; INop; ITS tsVal tsEcr] else []) ++ [INop; INop] ++ [ISack blocks]).
+    change ((if tsOk then [INop; INop; ITS tsVal tsEcr] else []) ++ [INop; INop; ISack (firstn n blocks)])
+      with ((if tsOk then [INop; INop; ITS tsVal tsEcr] else []) ++ [INop; INop] ++ [ISack (firstn n blocks)]).
+    rewrite !app_assoc. fold pre. rewrite !emit_items_app.
+    assert (Hpre : Forall wf_item pre) by (subst pre; destruct tsOk; cbn [app]; wf_items).
+    assert (Lpre : length (wire pre) = if tsOk then 14%nat else 2%nat) by (subst pre; destruct tsOk; reflexivity).
+    pose proof (emit_items_wire pre [] buf Hpre ltac:(rewrite Lpre, Hbuf; destruct tsOk; lia)) as E.
+    cbn [app length] in E. rewrite E. clear E.
+    unfold emit_items. cbn [fold_left]. unfold emit. rewrite skipn_app_exact.
+    set (rest := skipn (length (wire pre)) buf).
+    assert (Lrest : length rest = if tsOk then 26%nat else 38%nat).
+    { subst rest. rewrite skipn_length, Lpre, Hbuf. destruct tsOk; reflexivity. }
+    destruct (encodeSACKBlocks_trunc blocks rest Hne ltac:(rewrite Lrest; destruct tsOk; lia))
+      as (_ & _ & _ & _ & ET).
+    cbn [encode_item] in *. rewrite ET.
+    assert (EN : firstn (sack_fit (length blocks) (length rest)) blocks = firstn n blocks).
+    { rewrite Lrest. unfold sack_fit. subst n.
+      destruct tsOk.
+      - change ((Z.of_nat 26 - 2) / 8) with 3.
+        destruct (Nat.le_gt_cases (length blocks) 3) as [Q|Q].
+        + rewrite !firstn_all2 by lia. reflexivity.
+        + f_equal. lia.
+      - change ((Z.of_nat 38 - 2) / 8) with 4.
+        destruct (Nat.le_gt_cases (length blocks) 4) as [Q|Q].
+        + rewrite !firstn_all2 by lia. reflexivity.
+        + f_equal. lia. }
+    rewrite EN.
+    assert (EI : encodeSACKBlocks (firstn n (firstn n blocks)) rest = encodeSACKBlocks (firstn n blocks) rest)
+      by (rewrite firstn_firstn, Nat.min_id; reflexivity).
+    reflexivity. }
+  rewrite Hprog. exists (wire prog').
+  assert (Hn : sackPermitted && negb (Nat.eqb (length blocks) 0) = true ->
+               ((1 <= length (firstn n blocks) <= 4)%nat /\ Forall u32pair (firstn n blocks)) /\
+               (length (firstn n blocks) <= n)%nat).
+  { intros ES. apply andb_true_iff in ES as [_ ES]. apply negb_true_iff, Nat.eqb_neq in ES.
+    split; [split|]; [rewrite firstn_length; subst n; destruct tsOk; lia|apply Forall_firstn, Hbl|].
+    rewrite firstn_length. lia. }
+  assert (Hwf : Forall wf_item prog').
+  { subst prog'. destruct tsOk; destruct (sackPermitted && negb (Nat.eqb (length blocks) 0)) eqn:ES;
+      cbn [app]; try (destruct (Hn eq_refl) as [Hn1 _]); wf_items. }
+  assert (Hlen : exists k, length (wire prog') = (4 * k)%nat /\ (k <= 10)%nat).
+  { subst prog'. destruct tsOk; destruct (sackPermitted && negb (Nat.eqb (length blocks) 0)) eqn:ES;
+      cbn [app wire map concat item_bytes length be32]; try (destruct (Hn eq_refl) as [[Hn1 _] Hn2]);
+      rewrite ?app_nil_r, ?flat_map_block_length.
+    - exists (4 + 2 * length (firstn 3 blocks))%nat. subst n. lia.
+    - exists 3%nat. lia.
+    - exists (1 + 2 * length (firstn 4 blocks))%nat. subst n. lia.
+    - exists 0%nat. lia. }
+  destruct Hlen as (k & Hk & Hk10).
+  split; [apply make_options_wire; [exact Hwf|lia|rewrite Hk; Z.div_mod_to_equations; lia]|].
+  split; [rewrite Hk; Z.div_mod_to_equations; lia|]. split; [lia|].
+  rewrite parseTCPOptions_items by exact Hwf. f_equal.
+  subst prog'. destruct tsOk; destruct sackPermitted; cbn [andb];
+    try destruct (Nat.eqb_spec (length blocks) 0) as [Z0|Z0]; cbn [negb app fold_left apply_opt opts_default oTS oTSVal oTSEcr oSACKBlocks];
+    try reflexivity;
+    (destruct blocks; [reflexivity|cbn [length] in Z0; lia]).
+Qed.
